@@ -219,7 +219,11 @@ def case_u_cell(ctx, p):
         c2 = mod.ubi_to_cell(ubi)
         ok = mon.close("workload:%s.ubi_to_cell(u_to_ubi)=cell" % m, np.asarray(c2)[:3], c[:3], rtol=1e-9)
         mon.close("workload:%s.ubi_to_cell(u_to_ubi)=cell" % m, np.asarray(c2)[3:], c[3:], rtol=0, atol=1e-7)
-        U3, B3 = mod.ubi_to_u_b(ubi)
+        if fk == 0:
+            ctx.probe_alias(mod.form_b_mat, c)
+            ctx.probe_alias(mod.u_to_ubi, U, c)
+            ctx.probe_alias(mod.ubi_to_u, ubi)
+        U3, B3 = mod.ubi_to_u_b(ubi) if fk else ctx.probe_alias(mod.ubi_to_u_b, ubi)
         mon.close("workload:%s.ubi_to_u_b(u_to_ubi)=(U,B)" % m, U3, U, rtol=0, atol=ATOL)
         mon.close("workload:%s.ubi_to_u_b(u_to_ubi)=(U,B)" % m, B3, Bo, rtol=ATOL)
         for h in p["hkls"]:
